@@ -38,6 +38,8 @@ func c12ConvExact(c *Ctx) bool {
 		{"a 16-byte IPv4-mapped ip", 16, "mapped"},
 		{"a 16-byte ip without the mapped prefix", 16, "6"},
 		{"a 5-byte slice", 5, "bad"},
+		{"a 17-byte slice", 17, "bad"},
+		{"a 32-byte slice", 32, "bad"},
 		{"a nil ip", 0, "nil"},
 	}
 	type target struct {
